@@ -78,8 +78,11 @@ class SerialArchipelago(Archipelago):
             The individual with lowest fitness
         """
         list_of_best_indvs = [i.get_best_individual() for i in self.islands]
-        list_of_best_indvs.sort(key=lambda x: x.fitness)
-        return list_of_best_indvs[0]
+        best = list_of_best_indvs[0]
+        for indv in list_of_best_indvs:
+            if indv.fitness < best.fitness or np.isnan(best.fitness).any():
+                best = indv
+        return best
 
     def get_fitness_evaluation_count(self):
         """Gets the number of fitness evaluations performed
